@@ -274,12 +274,19 @@ def sweeps_and_guard(index, ctx):
     mod = F.module
     # the VJP callable: nested function containing the autograd.grad call
     # (a closure of _differentiate, or a module-level function of the same module bound with functools.partial)
-    own = lambda f: [c for c in calls_in(f.node, lambda c: norm_text(c.func).endswith("autograd.grad"))
-                     if not any(c in list(ast.walk(g.node)) for g in index.functions.values() if g.parent is f)]
-    nested = [f for f in index.functions.values() if f.parent is F or (f.parent is None and f.module is mod and f.cls is None)]
+    def own_calls(f, pred):
+        """Calls in the body of f itself (not in functions nested in it)."""
+        inner = [g for g in index.functions.values() if g.parent is f]
+        skip = {id(x) for g in inner for x in ast.walk(g.node)}
+        return [c for c in calls_in(f.node, pred) if id(c) not in skip]
+
+    own = lambda f: own_calls(f, lambda c: norm_text(c.func).endswith("autograd.grad"))
+    # a closure of _differentiate, a function of the same module, or a method of Jac / of one of its base classes
+    bases = [c for c in jac.mro]
+    nested = [f for f in index.functions.values() if f.parent is F or (f.module is mod and (f.cls is None or f.cls is jac)) or (f.cls is not None and f.cls in bases and f.cls is not jac)]
     vjp = [f for f in nested if own(f)]
     if len(vjp) != 1:
-        ctx.undecided("R2", "Jac._differentiate: VJP callable", f"expected one function of {mod.name} (closure or module-level) calling torch.autograd.grad, found {len(vjp)}", F.loc())
+        ctx.undecided("R2", "Jac._differentiate: VJP callable", f"expected one function (closure, function of {mod.name}, or method of Jac / its bases) calling torch.autograd.grad, found {len(vjp)}", F.loc())
         return
     vjp = vjp[0]
     g_cfg = cfg_of(vjp.node)
@@ -287,9 +294,14 @@ def sweeps_and_guard(index, ctx):
     counts = {sum(1 for n in p if n in gnodes) for p in g_cfg.acyclic_paths()}
     ctx.require(counts == {1}, "R2", f"{vjp.short}: one autograd.grad per VJP", "exactly one call on every path", f"autograd.grad executes {sorted(counts)} times per VJP call", vjp.loc())
     # the chunk routine: module-level function that calls torch.vmap
-    chunk_fns = [f for f in mod.functions.values() if calls_in(f.node, lambda c: norm_text(c.func).split(".")[-1] == "vmap")]
-    vmap_elsewhere = [f for f in index.all_functions("torchjd.autojac") if f not in chunk_fns and f.parent is None and
-                      calls_in(f.node, lambda c: norm_text(c.func).split(".")[-1] in ("vmap", "jacrev", "jacfwd", "vjp") or any(k.arg == "is_grads_batched" for k in c.keywords))]
+    is_vmap = lambda c: norm_text(c.func).split(".")[-1] == "vmap"
+    chunk_fns = [f for f in index.functions.values() if f.module is mod and own_calls(f, is_vmap)]
+    vmap_elsewhere = [f for f in index.all_functions("torchjd.autojac") if f not in chunk_fns and
+                      own_calls(f, lambda c: norm_text(c.func).split(".")[-1] in ("vmap", "jacrev", "jacfwd", "vjp") or any(k.arg == "is_grads_batched" for k in c.keywords))]
+    if len(chunk_fns) > 1 and F in chunk_fns and len([f for f in chunk_fns if f is not F]) == 1:
+        # a dedicated chunk routine exists: a vmap call in the sweep loop itself is outside the guarded routine
+        vmap_elsewhere.append(F)
+        chunk_fns = [f for f in chunk_fns if f is not F]
     if len(chunk_fns) != 1:
         ctx.undecided("R3", "vmap call sites", f"expected one function calling torch.vmap, found {[f.short for f in chunk_fns]}", F.loc())
         return
@@ -300,7 +312,10 @@ def sweeps_and_guard(index, ctx):
     ctx.analysed(F.qualname, G.qualname, vjp.qualname)
     # R2: calls of G in F
     f_cfg = cfg_of(F.node)
-    is_g = lambda x: isinstance(x, ast.Call) and isinstance(x.func, ast.Name) and x.func.id == G.name
+    is_g = lambda x: isinstance(x, ast.Call) and ((isinstance(x.func, ast.Name) and x.func.id == G.name) or
+                                                  (isinstance(x.func, ast.Attribute) and x.func.attr == G.name and isinstance(x.func.value, ast.Name) and x.func.value.id in ("self", "cls", jac.name)))
+    if G is F:
+        is_g = lambda x: False
     gcalls = f_cfg.nodes_containing(is_g)
     in_loop = [n for n in gcalls if n.loops]
     after = [n for n in gcalls if not n.loops]
@@ -315,16 +330,41 @@ def sweeps_and_guard(index, ctx):
                 cnts.add(sum(1 for n in p if n in body_nodes))
         if cnts - {1}:
             ok = False
-    ctx.require(ok and len(in_loop) + len(after) >= 1, "R2", f"{F.short}: one call of {G.name} per row block", f"{len(in_loop)} call site(s) in the block loop, {len(after)} after it, one per iteration path",
-                f"the chunk routine is not called exactly once per loop iteration", F.loc())
+    if G is not F:
+        ctx.require(ok and len(in_loop) + len(after) >= 1, "R2", f"{F.short}: one call of {G.name} per row block", f"{len(in_loop)} call site(s) in the block loop, {len(after)} after it, one per iteration path",
+                    f"the chunk routine is not called exactly once per loop iteration", F.loc())
     # R2: G applies the VJP exactly once per path; R3: guard
-    gp = [a.arg for a in G.node.args.args]
+    gp = [a.arg for a in G.node.args.args if a.arg not in ("self", "cls")]
     cfg = cfg_of(G.node)
-    # names bound to the callable parameter (incl. partial re-binding `get_vjp = partial(get_vjp, ...)`)
-    callable_params = [a.arg for a in G.node.args.args if a.annotation is not None and "Callable" in ast.unparse(a.annotation)] or gp[1:2]
-    direct = cfg.nodes_containing(lambda x: isinstance(x, ast.Call) and isinstance(x.func, ast.Name) and x.func.id in callable_params)
+    # names through which the VJP is applied inside G: callable parameters, the VJP function itself (closure / module function / method),
+    # one-level wrappers of it, and locals bound to `partial(<one of these>, ...)`
+    callable_params = [a.arg for a in G.node.args.args if a.annotation is not None and "Callable" in ast.unparse(a.annotation)]
+    vjp_names = set(callable_params) | {vjp.name}
+    for f2 in index.functions.values():
+        if (f2.parent is G or f2.parent is F or f2.module is mod or (f2.cls is not None and f2.cls in bases)) and f2 is not G and f2 is not F:
+            if any(isinstance(c.func, ast.Name) and c.func.id in vjp_names or isinstance(c.func, ast.Attribute) and c.func.attr in vjp_names and isinstance(c.func.value, ast.Name) and c.func.value.id == "self"
+                   for c in calls_in(f2.node, lambda c: True)):
+                vjp_names.add(f2.name)
+    if not callable_params and not (vjp_names - {vjp.name}) and not any(isinstance(n_, ast.Name) and n_.id == vjp.name or isinstance(n_, ast.Attribute) and n_.attr == vjp.name for n_ in ast.walk(G.node)):
+        callable_params = gp[1:2]
+        vjp_names |= set(callable_params)
+    for n_ in ast.walk(G.node):
+        if isinstance(n_, ast.Assign) and isinstance(n_.targets[0], ast.Name) and isinstance(n_.value, ast.Call) and norm_text(n_.value.func).endswith("partial") and n_.value.args:
+            a0 = n_.value.args[0]
+            if (isinstance(a0, ast.Name) and a0.id in vjp_names) or (isinstance(a0, ast.Attribute) and a0.attr in vjp_names):
+                vjp_names.add(n_.targets[0].id)
+
+    def applies_vjp(x):
+        if not isinstance(x, ast.Call):
+            return False
+        f_ = x.func
+        return (isinstance(f_, ast.Name) and f_.id in vjp_names) or (isinstance(f_, ast.Attribute) and f_.attr in vjp_names and isinstance(f_.value, ast.Name) and f_.value.id in ("self", "cls"))
+
+    nested_in_g = {id(x) for g2 in index.functions.values() if g2.parent is G for x in ast.walk(g2.node)}
+    direct = cfg.nodes_containing(lambda x: applies_vjp(x) and id(x) not in nested_in_g)
     direct = [n for n in direct if not any(isinstance(x, ast.Call) and norm_text(x.func).endswith("partial") for e in own_exprs(n) for x in ast.walk(e))]
     via_vmap = cfg.nodes_containing(lambda x: isinstance(x, ast.Call) and isinstance(x.func, ast.Call) and norm_text(x.func.func).split(".")[-1] == "vmap")
+    direct = [n for n in direct if n not in via_vmap]
     cnt = {sum(1 for n in p if n in direct or n in via_vmap) for p in cfg.acyclic_paths()}
     ctx.require(cnt == {1}, "R2", f"{G.short}: the VJP callable is applied exactly once per block", "one application on every path",
                 f"the VJP callable is applied {sorted(cnt)} times depending on the path", G.loc())
